@@ -7,6 +7,14 @@ def h3_bad_name_char(c, i):
 
 def h3_ws(c):
     return c == 0x20 or c == 0x09
+
+def h3_name_bad(x):
+    "some byte of the name is a control / space (<= 0x20), upper-case, DEL / non-ASCII (>= 0x7F) or a non-initial colon"
+    return exists(lambda i: 0 <= i < len(x) and h3_bad_name_char(elem(x, i), i))
+
+def h3_value_bad(v):
+    "the value contains NUL / CR / LF, or starts or ends with SP / HTAB"
+    return exists(lambda i: 0 <= i < len(v) and (elem(v, i) == 0 or elem(v, i) == 0x0A or elem(v, i) == 0x0D)) or (len(v) > 0 and (h3_ws(elem(v, 0)) or h3_ws(elem(v, len(v) - 1))))
 """
 )
 
@@ -15,12 +23,12 @@ def h3_ws(c):
 R.contract(
     "validate_header_name",
     params={"key": "bytes"},
-    raises={"MessageError": "exists(lambda i: 0 <= i < len(key) and h3_bad_name_char(key[i], i))"},
+    raises={"MessageError": "h3_name_bad(key)"},
     loops={
         0: dict(
             invariant=[
                 "0 <= _i0 <= len(key)",
-                "forall(lambda k: implies(0 <= k < _i0, not h3_bad_name_char(key[k], k)))",
+                "forall(lambda k: implies(0 <= k < _i0, not h3_bad_name_char(elem(key, k), k)))",
             ],
         )
     },
@@ -33,13 +41,13 @@ R.contract(
     "validate_header_value",
     params={"key": "bytes", "value": "bytes"},
     raises={
-        "MessageError": "exists(lambda i: 0 <= i < len(value) and (value[i] == 0 or value[i] == 0x0A or value[i] == 0x0D)) or (len(value) > 0 and (h3_ws(value[0]) or h3_ws(value[len(value) - 1])))"
+        "MessageError": "h3_value_bad(value)"
     },
     loops={
         0: dict(
             invariant=[
                 "0 <= _i0 <= len(value)",
-                "forall(lambda k: implies(0 <= k < _i0, not (value[k] == 0 or value[k] == 0x0A or value[k] == 0x0D)))",
+                "forall(lambda k: implies(0 <= k < _i0, not (elem(value, k) == 0 or elem(value, k) == 0x0A or elem(value, k) == 0x0D)))",
             ],
         )
     },
